@@ -323,3 +323,40 @@ def r19b(model: Model, rr: RuleResult):
 @RULES.rule("C19", "R19c", "reuse is disabled only by the documented sentinel (= R06c)", floor=5)
 def r19c(model: Model, rr: RuleResult):
     r06c_impl(model, rr)
+
+
+@RULES.rule("C06", "R06e", "a gradient definition is shared only between paints that agree in every field of the reuse key (paint and residual transform)", floor=2)
+def r06e(model: Model, rr: RuleResult):
+    from ..dataflow import param_closure
+    mod = model.mod("svg")
+    fields = [f for f, _, _ in mod.cls("GradientReuseKey").fields]
+    if fields[:2] != ["paint", "transform"]:
+        raise AnalysisError(f"GradientReuseKey fields changed: {fields}")
+    n = 0
+    for mname in ("svg", "colr_to_svg"):
+        m = model.mod(mname)
+        for fi in m.functions.values():
+            for c in calls_in(fi):
+                if callee_tail(c) != "GradientReuseKey":
+                    continue
+                n += 1
+                given = set(fields[: len(c.args)]) | {k.arg for k in c.keywords}
+                cfg = cfg_of(fi)
+                miss = [f for f in fields if f not in given]
+                if miss:
+                    rr.bad(fi, c, f"{short(c)} leaves out {miss} (which then defaults to the identity): two gradients with equal stops and circles but different residual "
+                           f"transforms (a radial gradient on a non-uniformly scaled copy) share one definition, so one of them is painted with the other's gradientTransform",
+                           construct=f"{mname}.{fi.qualname}: GradientReuseKey without {miss}")
+                    continue
+                targ = c.args[1] if len(c.args) > 1 else kwarg(c, "transform")
+                if "transform" in fi.params and "transform" not in param_closure(cfg, cfg.node_for(c), targ) and norm(targ) != "Affine2D.identity()":
+                    rr.bad(fi, c, f"the key's transform {short(targ)} does not derive from the transform being applied", construct=f"{mname}.{fi.qualname}: GradientReuseKey transform")
+                else:
+                    rr.ok(f"{mname}.{fi.qualname}: {short(c)} keys on the paint and the residual transform")
+    if n < 1:
+        raise AnalysisError("no GradientReuseKey(...) construction found")
+    dfn = [c for c in calls_in(model.func("svg", "_apply_gradient_paint")) if callee_tail(c) == "_define_gradient"]
+    if dfn and all(len(c.args) >= 3 and norm(c.args[2]) == "transform" for c in dfn):
+        rr.ok("the gradient is defined with the same transform that is in the key")
+    else:
+        rr.bad(model.func("svg", "_apply_gradient_paint"), dfn[0] if dfn else None, "the gradient is defined with a transform other than the one in the reuse key", construct="_apply_gradient_paint: _define_gradient transform")
